@@ -57,4 +57,106 @@ Definition fr_answers (src dst : list byte) : list ack :=
   | Some hs => match recv_hashes B H dst hs r_init with ROver st => r_acks st | _ => [] end
   | None => []
   end.
+
+(* ==========================================================================================
+   The whole fault alphabet of the resume exchange.  Everything the two ends read during the
+   exchange is what the connection DELIVERED:
+     fd_size     the hash-phase "#SIZE:" line (protocol 3 only: the one integer of the protocol
+                 that is neither echoed nor checksummed; protocol 4 takes the size from the NAME
+                 record) - any integer: digit substituted, inserted, deleted
+     fd_hashes   the HASH records and the Over record as the receiver reads them - any list of
+                 well-formed records: step digits changed, digest characters changed, records
+                 lost, doubled, out of order
+     fd_answers  the answers as the sender reads them - any list of well-formed records: match
+                 flipped, step digits changed, lost, doubled, stale answers in their place
+   Taken as sent: the NAME record and its reply (zlib + base64 coded; they carry the source size
+   for protocol 4 and the size of the existing destination), and the data phase that follows (SIZE
+   with its echo, DATA, MD5: Model/Protocol.v).
+   Every line the reader does not consume during the exchange is read by the NEXT step of the
+   protocol (recvFileSize on the receiver, the SIZE echo on the sender), which fails on it: the
+   delivered lists must be used up exactly.
+
+   The two places of the code the outcome hinges on are parameters, read from the source
+   (go/cmd/gen/protocol.go):
+     guard   Consts.c02_resume_rest_guard  2: recvFiles refuses an announced size other than the
+             remembered rest whenever that rest is >= 0; 1: only when it is > 0; 0: never
+     trunc   Consts.c02_resume_truncates   1: recvPrefixHash cuts the destination at its own offset;
+             2: only if the existing file is longer than the (delivered) source size; 0: never
+     sizeck  Consts.c02_resume_size_guard  0: the hash-phase SIZE line is used as delivered; 1: it is compared
+             with the size in the NAME record, and a size below the receiver's own offset is refused *)
+Record fr_deliv := mkFrDeliv { fd_size : Z; fd_hashes : list hmsg; fd_answers : list ack }.
+
+(* pipelineRecvHashAck on the delivered answers: the verdict and what is left unread *)
+Fixpoint fr_recv_acks (size : Z) (acks : list ack) (mstep : Z) : sres * list ack :=
+  match acks with
+  | [] => (SBlocked, [])
+  | a :: rest =>
+    if negb (a_match a) then (SDone mstep, rest)
+    else
+      let mstep := a_step a in
+      if (mstep =? size)%Z then (SDone mstep, rest)
+      else if (size <? mstep)%Z then (SErr mstep, rest)
+      else fr_recv_acks size rest mstep
+  end.
+Definition fr_recv_hash_acks (size : Z) (acks : list ack) : sres * list ack :=
+  if (size =? 0)%Z then (SDone 0%Z, acks) else fr_recv_acks size acks 0%Z.
+
+(* what the receiver leaves unread: everything behind the first Over *)
+Fixpoint fr_after_over (msgs : list hmsg) : list hmsg :=
+  match msgs with
+  | [] => []
+  | Over :: rest => rest
+  | Hash _ _ :: rest => fr_after_over rest
+  end.
+
+Definition fr_is_nil {A} (l : list A) : bool := match l with [] => true | _ => false end.
+
+Definition fr_exchange (guard trunc sizeck : N) (proto4 : bool) (src dst : list byte) (d : fr_deliv) : option fr_outcome :=
+  match dst with
+  | [] =>
+    (* tgtFile.Size <= 0: neither end starts the exchange; nothing is delivered, nothing remembered *)
+    if fr_is_nil (fd_hashes d) && fr_is_nil (fd_answers d)
+    then Some (mkFrOut 0 0 src (f_data (f_write (mkFile [] 0) src))) else None
+  | _ :: _ =>
+    let size_r := if proto4 then Z.of_nat (length src) else fd_size d in
+    (* sizeck = 1: the SIZE line is compared with the size in the NAME record (taken as sent) when that is > 0 *)
+    if (sizeck =? 1)%N && negb proto4 && (0 <? Z.of_nat (length src))%Z && negb (size_r =? Z.of_nat (length src))%Z then None else
+    match recv_hashes B H dst (fd_hashes d) r_init with
+    | ROver st =>
+      if negb (fr_is_nil (fr_after_over (fd_hashes d))) then None else
+      match fr_recv_hash_acks (Z.of_nat (Nat.min (length src) (length dst))) (fd_answers d) with
+      | (SDone ms, []) =>
+        if (ms <? 0)%Z then None                          (* file.Seek to a negative offset *)
+        else
+          let mr := r_mstep st in
+          let rest := (size_r - mr)%Z in                  (* t.resumeRestSize *)
+          if (sizeck =? 1)%N && (rest <? 0)%Z then None else   (* sizeck = 1: a size below the own offset is refused *)
+          let announced := (Z.of_nat (length src) - ms)%Z in
+          let checked := if (guard =? 2)%N then (0 <=? rest)%Z else if (guard =? 1)%N then (0 <? rest)%Z else false in
+          if checked && negb (announced =? rest)%Z then None
+          else
+            let mrn := Z.to_nat mr in
+            let f0 := f_seek (mkFile dst (r_off st)) mrn in
+            let cut := if (trunc =? 1)%N then true else if (trunc =? 2)%N then (size_r <? Z.of_nat (length dst))%Z else false in
+            let f := if cut then f_truncate f0 mrn else f0 in
+            let sent := skipn (Z.to_nat ms) src in
+            Some (mkFrOut mr ms sent (f_data (f_write f sent)))
+      | _ => None
+      end
+    | _ => None
+    end
+  end.
+
+(* the code as it is *)
+Definition fr_exchange_code := fr_exchange Consts.c02_resume_rest_guard Consts.c02_resume_truncates Consts.c02_resume_size_guard.
+
+(* what an undamaged connection delivers *)
+Definition fr_honest (src dst : list byte) : fr_deliv :=
+  let size := Nat.min (length src) (length dst) in
+  match dst with
+  | [] => mkFrDeliv (Z.of_nat (length src)) [] []
+  | _ => mkFrDeliv (Z.of_nat (length src))
+           (match send_hashes B H size None src size 0 [] with Some hs => hs | None => [] end)
+           (fr_answers src dst)
+  end.
 End FaultResume.
